@@ -280,7 +280,7 @@ def run(shard, tier, seed):
               phases=[hypothesis.Phase.generate])
     @given(st.randoms(use_true_random=True), st.sampled_from(chainexec.CFGS), st.one_of(st.integers(3, 6), st.integers(7, 14 if tier == "quick" else 24)))
     def prop(rnd, cfg, nb):
-        case = chainexec.gen_case(rnd, cfg, nb, 0.0, ["C01"], p_fork=0.6, p_copy=0.25, p_same_cb=0.1, p_tx=0.75)
+        case = chainexec.gen_case(rnd, cfg, nb, 0.0, ["C01"], p_fork=0.6, p_copy=0.25, p_same_cb=0.1, p_tx=0.75, zero_rewards=True)
         c, fails = execute(case, rnd)
         res.evaluations += c.stats.get("orders", 0)
         res.count("trees")
